@@ -11,7 +11,11 @@ Binding A: every Cmp/Fn/Bin edge of the dumped TLC graphs is rendered as an XPat
 evaluated by the 2.0 / 3.0 / 3.1 parsers, by the 2.0 and 3.1 parsers with compatibility_mode=True
 and -- for operands an XPath 1.0 expression can denote -- by the XPath 1.0 parser.  Only the
 outcome (true / false / empty / error code XPTY0004 FORG0001 FORG0006) is compared with the set
-TLC computed.  Second oracle for the SPEC on the XPath 1.0 fragment: libxml2 (lxml); disagreement
+TLC computed.  Two compositional families: CmpLong edges (operands padded to 5 / 8 / 17 items by repeating an item or
+prepending NaN -- the permitted outcomes come from the item SETS, law InvSetBased) and BinW / NotBinW edges
+(`and` / `or` over node operands written as RELATIVE paths a, b, missing, a/b from the document element,
+bare or inside not() boolean() empty() exists(), both operand orders, and not(P f Q) for De Morgan).
+Second oracle for the SPEC on the XPath 1.0 fragment: libxml2 (lxml); disagreement
 is a machinery failure.  The 2.0 tables have no second oracle: see the section references in the
 modules and in known_findings.d/C07.json.
 """
@@ -135,7 +139,42 @@ def render_seq(S, style: str):
     return parts[0] if len(parts) == 1 else '(' + ', '.join(parts) + ')'
 
 
+NAN = tla.FrozenDict(t='dbl', k='nan', n=0, nz=False)      # EBV!DbNaN
+REL_PATHS = {'': ('missing', 'a/b'), '1': ('a',), 'abc': ('b',)}     # relative paths from the document element
+
+
+def pad(S, how: str, k: int):
+    """Compare!PadSet made concrete: extend S to k items"""
+    if k <= len(S):
+        return list(S)
+    return list(S) + [S[-1]] * (k - len(S)) if how == 'last' else [NAN] * (k - len(S)) + list(S)
+
+
+def render_short(S) -> str:
+    parts = [render(x, 'lit') or render(x, 'ctor') for x in S]
+    return parts[0] if len(parts) == 1 else '(' + ', '.join(parts) + ')'
+
+
+def rel_texts(action, args, L, R, cfg):
+    """wl(lhs) f wr(rhs) with the node operands written as relative paths (every spelling of an empty one)"""
+    f, wl, wr = args
+    if cfg == 'c10' and not {wl, wr} <= {'id', 'not', 'boolean'}:
+        return []
+    out = []
+    for pa in REL_PATHS[text_of(L[0]['s']) if L else '']:
+        for pb in REL_PATHS[text_of(R[0]['s']) if R else '']:
+            a = pa if wl == 'id' else f'{wl}({pa})'
+            b = pb if wr == 'id' else f'{wr}({pb})'
+            out.append(f'{a} {f} {b}' if action == 'BinW' else f'not({a} {f} {b})')
+    return out
+
+
 def expr_for(action: str, args: tuple, L, R, style: str):
+    if action == 'CmpLong':
+        op, how, kl, kr = args
+        return f'{render_short(pad(L, how, kl))} {SYMS[op]} {render_short(pad(R, how, kr))}'
+    if action in ('BinW', 'NotBinW'):
+        return (rel_texts(action, args, L, R, 'v31') or [None])[0]
     a = render_seq(L, style)
     if a is None:
         return None
@@ -180,13 +219,13 @@ def setup():
     return _state
 
 
-def evaluate(text: str, cfg: str) -> str:
+def evaluate(text: str, cfg: str, doc: bool = False) -> str:
     import elementpath
     from elementpath.exceptions import ElementPathError
     st = setup()
     cls, kw = st['cfg'][cfg]
     try:
-        if '/r/' in text:
+        if doc or '/r/' in text:
             r = elementpath.select(st['root'], text, parser=cls, **kw)
         else:                      # no node operand: no document needed (the context item is never used)
             r = elementpath.select(None, text, item=0, parser=cls, **kw)
@@ -291,7 +330,7 @@ def features(action, args, L, R, cfg, style, expected, observed) -> dict:
     """One root cause = one pattern: a failing comparison of SEQUENCES is traced to its first
     operand pair (a, b) that fails as a single-pair comparison (cause 'cell': the fingerprint is
     that of the pair); if every pair conforms on its own the defect is in the closure itself."""
-    kind = args[0] if action == 'Cmp' else action.lower()
+    kind = args[0] if action == 'Cmp' else 'gen' if action == 'CmpLong' else action.lower()
     op = args[1] if action == 'Cmp' else args[0]
     mode = '1.0' if cfg == 'c10' else 'compat' if cfg[0] == 'c' else '2.0+'
     f = dict(kind=kind, op=op, opclass=('equality' if op in ('eq', 'ne') else 'order' if op in SYMS else op),
@@ -299,7 +338,11 @@ def features(action, args, L, R, cfg, style, expected, observed) -> dict:
              expected='|'.join(sorted(expected)), observed=observed)
     f['exp_kind'], f['obs_kind'] = okind(expected), okind([observed])
     f['cexp_kind'], f['cobs_kind'] = f['exp_kind'], f['obs_kind']
-    if action != 'Cmp':
+    if action == 'CmpLong':
+        how, kl, kr = args[1:]
+        f.update(kind='gen', family='long', how=how, lens=f'{kl}x{kr}', shape='2x2')
+        L, R = pad(L, how, kl), pad(R, how, kr)
+    elif action != 'Cmp':
         f.update(cause='logic', pair='-', cell_expected=f['expected'], cell_observed=observed, special='-')
         return f
     if len(L) == 1 and len(R) == 1:
@@ -345,6 +388,32 @@ def worker(job):
     fails, oracle = [], []
     n_eval = n_x10 = n_unspec = 0
     for (action, args, L, R, res) in job:
+        if action in ('BinW', 'NotBinW'):
+            for cfg in CFGS:
+                allowed = res[cfg]
+                for text in rel_texts(action, args, L, R, cfg):
+                    if cfg == 'c10':
+                        n_x10 += 1
+                        ref = libxml2(text)
+                        if ref is not None and set(allowed) != {ref}:
+                            oracle.append(f'{text}: spec {sorted(allowed)} libxml2 {ref}')
+                            continue
+                    obs = evaluate(text, cfg, doc=True)
+                    n_eval += 1
+                    if obs not in allowed:
+                        fails.append((features(action, args, L, R, cfg, 'rel', allowed, obs),
+                                      dict(expr=text, cfg=cfg, doc=True), sorted(allowed), obs))
+            continue
+        if action == 'CmpLong':
+            text = expr_for(action, args, L, R, 'lit')
+            for cfg in ('v31', 'c20'):
+                allowed = res[cfg]
+                obs = evaluate(text, cfg)
+                n_eval += 1
+                if obs not in allowed:
+                    fails.append((features(action, args, L, R, cfg, 'lit', allowed, obs),
+                                  dict(expr=text, cfg=cfg), sorted(allowed), obs))
+            continue
         for cfg in cfgs_for(action, args, L, R):
             allowed = res[cfg]
             if action == 'Cmp' and args[0] == 'val' and cfg == 'c10':
@@ -373,7 +442,7 @@ def worker(job):
 def replay(rec: dict) -> int:
     core.setup_repo_path()
     case = rec['case']
-    obs = evaluate(case['expr'], case['cfg'])
+    obs = evaluate(case['expr'], case['cfg'], doc=bool(case.get('doc')))
     print('expr     :', case['expr'], ' configuration', case['cfg'], ' document', DOC)
     print('permitted:', rec['expected'])
     print('observed :', obs)
@@ -387,7 +456,7 @@ def plan_from_graph(g) -> list:
     """(action, args, lhs, rhs, res) for every result-producing edge."""
     out = []
     for s, d, a, args in g.edges:
-        if a in ('Cmp', 'Fn', 'Bin'):
+        if a in ('Cmp', 'Fn', 'Bin', 'CmpLong', 'BinW', 'NotBinW'):
             src, dst = g.states[s], g.states[d]
             out.append((a, args, src['lhs'], src['rhs'], dst['res']))
     return out
@@ -416,7 +485,8 @@ def run(chk: core.Check) -> None:
         if not plan:
             raise tla.MachineryError(f'{module}: no Cmp/Fn/Bin edges in the graph')
         acts = {(p[0],) + tuple(p[1]) for p in plan}
-        want = 12 if module == 'Compare' else 5
+        chk.coverage.setdefault('operations_fired', {})[module] = len(acts)
+        want = 12 + 48 if module == 'Compare' else 5 + 100       # Cmp + CmpLong; Fn/Bin + BinW/NotBinW
         if len(acts) != want:
             raise tla.MachineryError(f'{module}: {len(acts)} distinct operations fired, expected {want}')
         print(f'  {module}: states={r.distinct} edges={len(g.edges)} plan={len(plan)} tlc={r.wall_s:.1f}s', flush=True)
